@@ -913,7 +913,9 @@ class SessionEngine(Engine):
                     events.append({"ev": "bytes", "t": t, "hex": hx + "".join(KEYS[rng.choice(list(KEYS))] for _ in range(rng.randint(1, 2)))})
                 else:
                     events.append({"ev": "bytes", "t": t, "hex": hx})
-            elif r < 0.6 and cfg["mouse"]:
+            elif r < 0.6 and (cfg["mouse"] or rng.random() < 0.5):
+                # (mouse reports also arrive when MainLoop was told not to switch mouse reporting on: a terminal left in
+                # mouse mode, an application that calls set_mouse_tracking() itself - they are input events all the same)
                 x, y = rng.randrange(cols), rng.randrange(rows)
                 events.append({"ev": "bytes", "t": t, "hex": sgr_press(x, y) + (sgr_press(x, y, True) if rng.random() < 0.5 else "")})
             elif r < 0.67:
